@@ -36,14 +36,17 @@ BagsOK(e) == \A h \in DOMAIN e.live : NoDup(e.live[h].rules)
 (***************************************************************************)
 (* C12: the read-only views of every live handle agree with its value      *)
 (***************************************************************************)
+\* a history may ask for a subset of the views only (a view that is always asked can mask a defect: AreTransitionsEmpty, for
+\* one, un-shares the rule storage as a side effect); every view that IS logged must agree with the value
 ViewOK(v, x) ==
-  /\ NoDup(x.accept) /\ Rng(x.accept) = {r \in v.rules : r[3] \in v.fin}
-  /\ \A d \in Rng(x.down) : /\ NoDup(d[2]) /\ Rng(d[2]) = {r \in v.rules : r[3] = d[1]}
-                            /\ d[3] = (Rng(d[2]) = {})
-  /\ \A c \in Rng(x.contains) : c[2] = (c[1] \in v.rules) /\ c[3] = c[2]
-  /\ Rng(x.used) = States([fin |-> v.fin, rules |-> v.rules])
-  /\ x.empty = (v.rules = {})
-  /\ \A f \in Rng(x.isfinal) : f[2] = (f[1] \in v.fin)
+  LET has(k) == k \in DOMAIN x IN
+  /\ has("accept") => NoDup(x.accept) /\ Rng(x.accept) = {r \in v.rules : r[3] \in v.fin}
+  /\ has("down") => \A d \in Rng(x.down) : /\ NoDup(d[2]) /\ Rng(d[2]) = {r \in v.rules : r[3] = d[1]}
+                                           /\ d[3] = (Rng(d[2]) = {})
+  /\ has("contains") => \A c \in Rng(x.contains) : c[2] = (c[1] \in v.rules) /\ c[3] = c[2]
+  /\ has("used") => Rng(x.used) = States([fin |-> v.fin, rules |-> v.rules])
+  /\ has("empty") => x.empty = (v.rules = {})
+  /\ has("isfinal") => \A f \in Rng(x.isfinal) : f[2] = (f[1] \in v.fin)
 ViewsOK(e) == Has(e, "views") => \A h \in DOMAIN e.views : ViewOK(val'[h], e.views[h])
 
 Matches == val' = Logged(E) /\ BagsOK(E) /\ ViewsOK(E)
